@@ -175,6 +175,10 @@ def match_response(obs, exp, leak_markers=()):
     e = obs['error']
     if not isinstance(e, dict) or not typed_eq(e.get('code'), exp['code']):
         return 'error code %r instead of %r' % (e.get('code') if isinstance(e, dict) else e, exp['code'])
+    if exp.get('stamped') is not None and exp.get('exact') is None:
+        # an error generated by the library (message unconstrained) whose data was set by a user handler
+        if 'data' not in e or not typed_eq(e['data'], exp['stamped']):
+            return 'error data %r instead of %r' % (e.get('data', '<absent>'), exp['stamped'])
     if exp.get('exact') is not None:
         code, message, data = exp['exact']
         if not typed_eq(e.get('message'), message):
